@@ -49,20 +49,30 @@ type Scenario struct {
 	next   int
 }
 
+// ScriptEv is one event of a hand-written DAG (offline corpus construction): Cr is the creator's position in the canonical
+// validator order (0 = first), SP and Ps name earlier events.
+type ScriptEv struct {
+	Name string   `json:"name"`
+	Cr   int      `json:"cr"`
+	SP   string   `json:"sp"`
+	Ps   []string `json:"ps"`
+}
+
 type GenCfg struct {
-	Weights       []int   // weights of the first epoch (len = number of validators)
-	Cheaters      int     // number of forking validators (the lightest ones unless ByzHeavy)
-	ByzHeavy      bool    // cheaters chosen among the heaviest (may exceed 1/3)
-	Epochs        int     // number of epochs
-	EpochEvents   int     // event budget per epoch
-	SealFrames    []int   // frame at which epoch i seals (0 = when the budget is exhausted -> last epoch only)
-	MaxParents    int     // max number of parents incl. self-parent
-	ForkProb      float64 // probability that a cheater's event forks
-	LazyFrame     float64 // probability that an event claims a lower (still allowed) frame
-	Lag           float64 // probability that a validator is "slow" (10x less active)
-	Partition     bool    // split validators into two groups for the middle third of each epoch
-	MutateVals    bool    // change the validator set at each seal
-	OldParent     float64 // probability that an other-parent is an old event instead of the latest
+	Script        []ScriptEv // when set, creators and parents come from the script instead of the random choices
+	Weights       []int      // weights of the first epoch (len = number of validators)
+	Cheaters      int        // number of forking validators (the lightest ones unless ByzHeavy)
+	ByzHeavy      bool       // cheaters chosen among the heaviest (may exceed 1/3)
+	Epochs        int        // number of epochs
+	EpochEvents   int        // event budget per epoch
+	SealFrames    []int      // frame at which epoch i seals (0 = when the budget is exhausted -> last epoch only)
+	MaxParents    int        // max number of parents incl. self-parent
+	ForkProb      float64    // probability that a cheater's event forks
+	LazyFrame     float64    // probability that an event claims a lower (still allowed) frame
+	Lag           float64    // probability that a validator is "slow" (10x less active)
+	Partition     bool       // split validators into two groups for the middle third of each epoch
+	MutateVals    bool       // change the validator set at each seal
+	OldParent     float64    // probability that an other-parent is an old event instead of the latest
 	BigIdx        bool
 	Rounds        bool    // round-based creation: every validator creates one event per round on top of the previous round
 	SealAtCascade bool    // the application seals at the first block (frame >= 2) that the generator instance decides as a second or later block of one Process call
@@ -300,7 +310,18 @@ func Generate(r *rand.Rand, cfg GenCfg, rec *Recorder) *Scenario {
 		justWoke := map[idx.ValidatorID]bool{}
 		prevRound := map[idx.ValidatorID]*Ev{}
 		hard := budget * 4
+		named := map[string]*Ev{}
+		canon := append([]ValW{}, vals...)
+		sort.SliceStable(canon, func(i, j int) bool {
+			if canon[i].W != canon[j].W {
+				return canon[i].W > canon[j].W
+			}
+			return canon[i].ID < canon[j].ID
+		})
 		for n := 0; n < hard; n++ {
+			if len(cfg.Script) > 0 && n >= len(cfg.Script) {
+				break
+			}
 			if ep.SealFrame == 0 && n >= budget && !(cfg.SealAtCascade && epi < cfg.Epochs-1) {
 				break
 			}
@@ -443,7 +464,19 @@ func Generate(r *rand.Rand, cfg GenCfg, rec *Recorder) *Scenario {
 				}
 				others = append(others, cand)
 			}
+			if len(cfg.Script) > 0 {
+				se := cfg.Script[n]
+				c = canon[se.Cr]
+				sp = named[se.SP]
+				others = nil
+				for _, pn := range se.Ps {
+					others = append(others, named[pn])
+				}
+			}
 			ev, te := s.mkEvent(ep.Epoch, c.ID, sp, others)
+			if len(cfg.Script) > 0 {
+				named[cfg.Script[n].Name] = ev
+			}
 			// frame from Build on the generator instance
 			err, critical := guarded(func() error { return gen.L.Build(te) })
 			if critical || err != nil {
